@@ -103,6 +103,13 @@ class InElastic(_Simu):
     def Get_dof_n(self, problemType=None) -> int:
         return self.dim
 
+    @_Simu.mesh.setter  # type: ignore [attr-defined]
+    def mesh(self, mesh: "Mesh"):
+        _Simu.mesh.fset(self, mesh)  # type: ignore [attr-defined]
+        # the internal variables of the previous mesh are not a state of this one
+        self.__z = {}
+        self.__zOld = {}
+
     def Get_x0(self, problemType=None):
         if self.displacement.size != self.mesh.Nn * self.dim:
             return np.zeros(self.mesh.Nn * self.dim)
